@@ -10,6 +10,11 @@ CLAIMED = {
    text='Proof. point/poly/poly1d call/points/poly2bez/bpoints2bezier/bez2poly/derivative(n=1..5) of Line, QuadraticBezier, CubicBezier are traced from the running code on opaque ring elements every run and proved equal to the Bernstein form, its monomial coefficients and their formal derivatives over every field of characteristic 0; the formal derivative is proved to be the analytic n-th derivative (iteratedDeriv) over R and C, incl. real parameter with complex control points, and to vanish for all n above the degree. Coincident control-point configurations are traced as separate cases. A float sampler with mutate-then-query sequences covers rounding and object state.',
    note='Trusted: Lean kernel + {propext, Classical.choice, Quot.sound}; translator (self-checked); numpy.poly1d object-array algebra; exact-arithmetic reading (IEEE rounding only sampled). derivative(t,n) for n>5 is covered by the all-n theorem on the formal derivative plus the sampler, not by a trace.',
    ref='7 C03'),
+ 'C05': dict(
+   technique='Lean 4 proof: induction over the segment-length list on a hand model of T2t/t2T/Path.point search/_calc_lengths/continuous_subpaths, tied by exact Fraction correspondence with stub segments',
+   text='Proof. Over any linearly ordered field: for non-negative fractions summing to 1 and 0<T<1, T2t returns the unique segment whose half-open cumulative interval contains T, that segment has positive length (zero-length non-leading segments are never selected), 0<t<=1, t2T maps (k,t) back to T exactly, Path.point evaluates exactly the (k,t) of T2t, the shortcuts at 0 and 1 are the first/last segment; BugException is unreachable. Law-free (decidable equality only): iscontinuous is the chain of end=start coincidences, continuous_subpaths concatenates back to the path and every piece is continuous. The model is run against the real Path methods on exact Fractions (stub segments) and real Lines every run; a float sampler covers rounding, all segment kinds and item-assignment histories.',
+   note='Trusted: Lean kernel + standard axioms; the correspondence runner; segment lengths are inputs (C06). Not proved: float rounding of the partial sums (T within an ulp of 1 can fall through); maximality of the subpaths is checked by correspondence and sampling, the Lean theorem covers concatenation and continuity of the pieces.',
+   ref='7 C05'),
  'C19': dict(
    technique='Lean 4 proof: per-degree ring identities on definitions regenerated from bezier.py by a tracing translator; list-induction theorems on a hand model of the polyroots filter tied by exact (rational) correspondence',
    text='Proof. For degrees 0..8 the traced bezier_point / bezier2polynomial / polynomial2bezier / split_bezier / halve_bezier are proved equal to the Bernstein form over every field of characteristic 0 (369 theorems, regenerated definitions, `ring`). The root filter after np.roots is proved to keep every isolated candidate exactly once and to return a pairwise non-close sublist, for all lists and all closeness relations; the model is executed against the real polyroots01/rational_limit on exact rationals every run. A float sampler on the real code backs the clauses proof cannot reach (rounding, np.roots).',
